@@ -234,7 +234,7 @@ class Gen(object):
         n = self.r.choice(names)
         return n if self.r.random() < 0.5 else table(n)
 
-    def coercer(self, names=('to_int', 'to_str', 'inc', 'wrap', 'ident', 'none', 'fail', 'keyfail', 'first', 'prefix_x')):
+    def coercer(self, names=('to_int', 'to_str', 'inc', 'wrap', 'ident', 'none', 'fail', 'keyfail', 'first', 'prefix_x', 'failrt', 'failattr')):
         import pool
         r = self.r
         if r.random() < 0.3:
@@ -251,7 +251,7 @@ class Gen(object):
             else:
                 letters = [s for s in siblings if isinstance(s, str) and len(s) == 1] or ['a']
                 n = r.choice(['const5'] + ['%s_%s' % (k, ''.join(r.sample(letters, r.randrange(0, min(3, len(letters)) + 1))))
-                                           for k in ('rd', 'rd', 'rd', 'rdx', 'rdk')])
+                                           for k in ('rd', 'rd', 'rd', 'rdx', 'rdk', 'rdr')])
                 if n not in pool.SETTER_NAMES:
                     n = 'const5'
                 rules['default_setter'] = n if r.random() < 0.5 else pool.setter(n)
@@ -260,7 +260,7 @@ class Gen(object):
         if not key_rules and not small and r.random() < 0.07:
             rules['rename'] = r.choice(['n1', 'n2', 7] + [s for s in siblings][:2])
         if not key_rules and not small and r.random() < 0.06:
-            rules['rename_handler'] = self.coercer(('prefix_x', 'to_str', 'to_int', 'ident', 'fail'))
+            rules['rename_handler'] = self.coercer(('prefix_x', 'to_str', 'to_int', 'ident', 'fail', 'failrt'))
         if rules.get('type') == 'dict' and 'schema' in rules and r.random() < 0.25:
             rules['purge_unknown'] = r.choice([True, False])
         if r.random() < 0.08:
